@@ -104,7 +104,14 @@ class Capture(logging.Handler):
 class Driver:
     """A kdrv.Engine with the C13 instrumentation attached from outside: WARNING capture and crypto-engine call tracing."""
     def __init__(self, ctx):
-        self.eng = kdrv.Engine(workdir=ctx.work)
+        # the SQLite file lives in a private directory next to work/C13: a second `bin/check C13` started while this one
+        # runs wipes work/C13 and would otherwise delete the database under a running engine
+        import tempfile
+        from pathlib import Path
+        base = Path(ctx.work).parent
+        base.mkdir(parents=True, exist_ok=True)
+        self.dbdir = tempfile.mkdtemp(prefix='C13db.', dir=str(base))
+        self.eng = kdrv.Engine(workdir=self.dbdir)
         self.cap = Capture()
         self.attach()
 
@@ -145,8 +152,10 @@ class Driver:
             setattr(ce, name, wrapper)
 
     def close(self):
+        import shutil
         self.eng.engine._logger.removeHandler(self.cap)
         self.eng.close()
+        shutil.rmtree(self.dbdir, ignore_errors=True)
 
     def reset(self):
         """Empties every table (identifier counter keeps running): a fresh store without paying for a new engine."""
@@ -557,11 +566,13 @@ def attr_ops_menu(uid, ver, quick_names=None):
     out = []
     all_names = CONSTRUCTIBLE + UNKNOWN_NAMES
     if ver < (2, 0):
+        rich = ('Name', 'Object Group', 'Application Specific Information', 'Cryptographic Parameters', 'Custom Attribute', 'Sensitive',
+                'Cryptographic Usage Mask', 'x-custom')
         for n in all_names:
-            for idx in (None, 0, 1, 2, 5, -1):
+            for idx in ((None, 0, 1, 2, 5, -1) if n in rich else (None, 1)):
                 out.append({'op': 'ModifyAttribute1', 'uid': uid, 'attr': {'name': n, 'index': idx}})
         for n in all_names + NAME_ONLY:
-            for idx in (None, 0, 1, 2, 5, -1):
+            for idx in ((None, 0, 1, 2, 5, -1) if n in rich else (None, 1)):
                 out.append({'op': 'DeleteAttribute1', 'uid': uid, 'name': n, 'index': idx})
     else:
         for n in CONSTRUCTIBLE:
@@ -602,8 +613,8 @@ def target_menu(uid, ver, wrap_uids=()):
             {'op': 'GetAttributes', 'uid': uid, 'names': ['Object Group', 'Application Specific Information', 'Contact Information']},
             {'op': 'GetAttributes', 'uid': uid, 'names': ['Sensitive']}, {'op': 'GetAttributes', 'uid': uid, 'names': ['Operation Policy Name']},
             {'op': 'GetAttributeList', 'uid': uid}]
-    for p in SYM_PARAMS:
-        for iv in (IVS if p and p.get('block_cipher_mode') in (MODE.CBC, MODE.CTR, MODE.GCM) and p.get('padding_method') != PAD.OAEP else [None]):
+    for k, p in enumerate(SYM_PARAMS):
+        for iv in (IVS if k in (2, 5, 6, 13) else [None]):
             for data in (b'', b'\x07' * 16, b'\x07' * 5):
                 out.append({'op': 'Encrypt', 'uid': uid, 'params': p, 'iv': iv, 'data': data})
                 out.append({'op': 'Decrypt', 'uid': uid, 'params': p, 'iv': iv, 'data': data})
@@ -946,7 +957,6 @@ def with_access(drv, store_obs, user, req_op):
             o['allowed'] = False
         else:
             o['allowed'] = bool(drv.eng.engine.is_allowed(o['policy'], user, None, o['owner'], enums.ObjectType(o['otype']), pop))
-        del o['owner']
         out.append(o)
     return out
 
@@ -1286,7 +1296,7 @@ def run(ctx):
     if fpath.exists():
         ctx.findings += [f for f in json.loads(fpath.read_text()) if f.get('property') == 'C13' and f.get('id') not in have]
     ctx.regen(only=['attrrules', 'pieclasses', 'enums'])
-    ctx.prove('props/C13.v')
+    ctx.prove('props/C13.v', extra_targets=['theories/NoCrash/Cases.v'])    # the comparator must build even when a proof breaks
     grid = Grid(ctx)
     rng = ctx.subrng('grid')
     run_corpus(grid, ctx)
@@ -1316,3 +1326,70 @@ def run(ctx):
         if i < len(grid.cases):
             ctx.sample({'request': grid.meta[i]['request'], 'version': grid.meta[i]['version'], 'observed': grid.meta[i]['observed'],
                         'coq_case': grid.cases[i][:600]})
+
+
+# ---------------------------------------------------------------------------------------------- replay
+def _unjson(x):
+    """Inverse of `jsonable` for the request part of a witness."""
+    if isinstance(x, dict):
+        return {k: _unjson(v) for k, v in x.items()}
+    if isinstance(x, list):
+        return [_unjson(v) for v in x]
+    if isinstance(x, str):
+        if x.startswith('hex:'):
+            return bytes.fromhex(x[4:])
+        if x.startswith('Name:'):
+            return kdrv.name_value(x[5:])
+        if '.' in x:
+            cls, _, member = x.partition('.')
+            e = getattr(enums, cls, None)
+            if e is not None and hasattr(e, member):
+                return e[member]
+    return x
+
+
+def replay(ctx, data):
+    """bin/check C13 --replay <file>: rebuilds a store like the recorded one, sends the recorded request, applies the oracle."""
+    w = data.get('input')
+    if w is None and data.get('first_disagreeing_cases'):
+        w = data['first_disagreeing_cases'][0]['case']['input']
+    if w is None:
+        print('replay file holds no concrete input (broken obligation without failing input): re-run bin/check C13')
+        return 2
+    req = _unjson(w['request'])
+    for k in ('versions',):
+        if k in req:
+            req[k] = tuple(tuple(v) for v in req[k])
+    ver = tuple(w['version'])
+    user = w.get('user', 'alice')
+    drv = Driver(ctx)
+    try:
+        states = {1: 'PreActive', 2: 'Active', 3: 'Deactivated', 4: 'Compromised', None: 'PreActive'}
+        uidmap = {}
+        for k, o in enumerate(w.get('store', [])):
+            tname = enums.ObjectType(o['otype']).name
+            spec = obj_spec(tname, states.get(o['state'], 'Active'), 'all' if o['mask'] else 'none', names=len(o['names']),
+                            asi=len(o['asi']), groups=len(o['groups']), owner=o.get('owner') or 'alice', empty=o.get('value_empty', False))
+            uidmap[str(o['uid'])] = add_object(drv, spec, 300 + k)
+
+        def remap(u):
+            return uidmap.get(str(u), u)
+        if 'uid' in req:
+            req['uid'] = remap(req['uid'])
+        if 'uids' in req:
+            req['uids'] = [remap(u) for u in req['uids']]
+        if req.get('wrap'):
+            for part in ('eki', 'mski'):
+                if req['wrap'].get(part):
+                    req['wrap'][part]['uid'] = remap(req['wrap'][part]['uid'])
+        obs = drv.run(mk_item(req), ver, user)
+        site = observed_site(obs)
+        print('replayed %s under KMIP %d.%d as %s: status=%s reason=%s site=%s crypto=%s' % (
+            req['op'], ver[0], ver[1], user, obs['status'], obs['reason'], site, obs['crypto']))
+        if site is not None:
+            print('VIOLATION property=C13 replay reproduces: the internal-error path is reached at %s' % site)
+            return 1
+        print('replay does not reproduce: no internal error')
+        return 0
+    finally:
+        drv.close()
